@@ -36,22 +36,22 @@ def mc_parts(quick):
 
 
 def gen_parts(quick):
-    allops = '{"r", "a", "p", "g", "s", "n", "t", "d"}'
-    base = dict(REAL, Script="<- ScriptNone", GDts="{1, 24}", MaxPn=6)
-    seq = dict(base, Atomic="TRUE", GSpaces="{3}", Depth=7 if quick else 9, MaxRcvd=3 if quick else 4, Ops='{"r", "a", "p", "g", "s"}',
+    base = dict(REAL, Script="<- ScriptNone", GDts="{1}", MaxPn=6, Els="{TRUE, FALSE}")
+    seq = dict(base, Atomic="TRUE", GSpaces="{3}", Depth=6 if quick else 9, MaxRcvd=3 if quick else 4, Ops='{"r", "a", "p", "g", "s"}',
                Script="<- ScriptSeq")
-    hs = dict(base, Atomic="TRUE", GSpaces="{1, 2, 3}", Depth=5 if quick else 6, MaxRcvd=3, GDts="{1}", Ops=allops)
+    spaces = dict(base, Atomic="TRUE", GSpaces="{1, 2, 3}", Depth=5 if quick else 7, MaxRcvd=2 if quick else 3,
+                  Ops='{"r", "a", "p", "g", "s", "t", "d"}', Script="<- ScriptSpaces")
     race = dict(base, Atomic="FALSE", GSpaces="{3}", Depth=7 if quick else 8, MaxRcvd=3 if quick else 4, Ops='{"r", "a", "p", "g", "s"}',
                 Script="<- ScriptRace")
-    return [("allpaths/seq", seq, None), ("allpaths/spaces", hs, None), ("allpaths/race", race, None)]
+    return [("allpaths/seq", seq, None), ("allpaths/spaces", spaces, None), ("allpaths/race", race, None)]
 
 
 def sim_parts(quick):
     allops = '{"r", "a", "p", "g", "s", "n", "t", "d"}'
-    base = dict(REAL, Script="<- ScriptNone", GDts="{1, 7, 24, 26, 60}", MaxPn=60, MaxRcvd=40, GSpaces="{1, 2, 3}", Ops=allops)
-    n = 150 if quick else 4000
-    return [("walks/seq", dict(base, Atomic="TRUE", Depth=40), {"num": n, "depth": 45}),
-            ("walks/race", dict(base, Atomic="FALSE", Depth=40), {"num": n, "depth": 45})]
+    base = dict(REAL, Script="<- ScriptNone", GDts="{1, 7, 24, 26, 60}", MaxPn=60, MaxRcvd=40, GSpaces="{1, 2, 3}", Ops=allops, Els="{TRUE, FALSE}")
+    n = 100 if quick else 4000
+    return [("walks/seq", dict(base, Atomic="TRUE", Depth=30), {"num": n, "depth": 35}),
+            ("walks/race", dict(base, Atomic="FALSE", Depth=30), {"num": n, "depth": 35})]
 
 
 def thin(path, keep):
@@ -113,14 +113,6 @@ def _adopt_known(rep):
             rep.known.append(k)
 
 
-def _drive_validate(rep, pid, part, beh):
-    wd = vlib.workdir(pid)
-    trace = os.path.join(wd, "trace_%s.ndjson" % part.replace("/", "_"))
-    vlib.vhx("vh-ackpolicy", ["replay", beh, trace])
-    common.validate(rep, pid, COMP, "Trace_AckPolicy", TRACE_CFG, trace, part, is_hit, sig=signature, constants=REAL)
-    return trace
-
-
 def run_part(pid, tier, rep):
     quick = tier == "quick"
     wd = vlib.workdir(pid)
@@ -129,16 +121,24 @@ def run_part(pid, tier, rep):
         need = ["Rcvd", "Advance", "Poll", "Gen", "Sent"] + (["Discard"] if name == "hs" else [])
         st = vlib.tlc_mc(pid, "MC_AckPolicy", cfg, consts, need_actions=need)
         rep.add_mc("ackpolicy/MC_AckPolicy/" + name, st)
+    # one validation pass over the recorded runs of all parts (each TLC start costs ~20-60 s on a loaded machine)
+    alltrace = os.path.join(wd, "trace_ackpolicy_all.ndjson")
     first = None
-    for part, consts, sim in gen_parts(quick) + sim_parts(quick):
-        part = "ackpolicy/" + part
-        beh = os.path.join(wd, "beh_%s.ndjson" % part.replace("/", "_"))
-        g = vlib.tlc_gen(pid, "Gen_AckPolicy", GEN_CFG, consts, beh, simulate=sim)
-        if sim:
-            g["behaviours"] = thin(beh, 2)
-        rep.add_mc("ackpolicy/Gen_AckPolicy/" + part[len("ackpolicy/"):], g)
-        trace = _drive_validate(rep, pid, part, beh)
-        first = first or trace
+    with open(alltrace, "w") as allf:
+        for part, consts, sim in gen_parts(quick) + sim_parts(quick):
+            tag = ("ackpolicy/" + part).replace("/", "_")
+            beh = os.path.join(wd, "beh_%s.ndjson" % tag)
+            g = vlib.tlc_gen(pid, "Gen_AckPolicy", GEN_CFG, consts, beh, simulate=sim)
+            if sim:
+                g["behaviours"] = thin(beh, 2)
+            rep.add_mc("ackpolicy/Gen_AckPolicy/" + part, g)
+            trace = os.path.join(wd, "trace_%s.ndjson" % tag)
+            vlib.vhx("vh-ackpolicy", ["replay", beh, trace])
+            with open(trace) as f:
+                for line in f:
+                    allf.write(line)
+            first = first or trace
+    common.validate(rep, pid, COMP, "Trace_AckPolicy", TRACE_CFG, alltrace, "ackpolicy/traces", is_hit, sig=signature, constants=REAL)
     # diagnostics (never a violation): SHOULDs of RFC 9000 13.2 and agreement of the implementation with the design, on the first part
     r = vlib.validate_traces(pid, "Trace_AckPolicy", DIAG_CFG, first, constants=REAL, tag="diag", max_soft=100000)
     diag = {}
